@@ -152,6 +152,7 @@ func checkRepeat(rep []string) string {
 		haschk bool
 		st     string // need, loop, act
 		cur    int
+		failed bool // a falsification was signalled while this machine was running
 	}
 	var stack []*mach
 	for k, e := range rep {
@@ -169,11 +170,18 @@ func checkRepeat(rep []string) string {
 				return "end without begin"
 			}
 			stack = stack[:len(stack)-1]
+		case "S":
+			for _, m := range stack {
+				m.failed = true
+			}
 		case "UChk":
 			if len(stack) == 0 {
 				return fmt.Sprintf("event %d: invariant outside a state machine", k)
 			}
 			m := stack[len(stack)-1]
+			if m.failed {
+				return fmt.Sprintf("event %d: the machine runs on (invariant check) after the property was falsified", k)
+			}
 			if m.st != "need" {
 				return fmt.Sprintf("event %d: invariant runs when none is due (state %s)", k, m.st)
 			}
@@ -184,6 +192,9 @@ func checkRepeat(rep []string) string {
 			}
 			m := stack[len(stack)-1]
 			i, _ := strconv.Atoi(f[1])
+			if m.failed {
+				return fmt.Sprintf("event %d: the machine runs on (action %d) after the property was falsified", k, i)
+			}
 			if m.st != "loop" {
 				return fmt.Sprintf("event %d: action %d starts in state %s", k, i, m.st)
 			}
